@@ -69,6 +69,10 @@ def check_src_header(rep, prog):
     I, st, out, (skey, sref, sg, slc) = run_section(prog, "PS", spec)
     ents, order = final_entries(I, sref)
     rule = "C03.R1.words-flags"
+    # every SRC is described from its own bytes: nothing decoded may be parked in state that outlives this decode
+    from .c19 import shared_write_problems
+    for e_, why in shared_write_problems(I):
+        rep.fail("C03.R6.own-bytes-only", e_.func, e_.node, why, node=e_.node)
     flags = IntF(9, 1)
     words = [IntF(16 + 4 * i, 4) for i in range(8)]
     for key, off, w in (("Section Version", 4, 1), ("Sub-section type", 5, 1)):
